@@ -17,6 +17,7 @@ import (
 	"fmt"
 	"hash"
 	"math/rand/v2"
+	"sync"
 	"testing"
 
 	"github.com/refraction-networking/uquic/internal/monotime"
@@ -700,6 +701,64 @@ func TestVerifC05Tamper(t *testing.T) {
 			l.Count("tamper_mutations", int64(len(muts)))
 			l.Count("tamper_rejected_by_aead", rejected)
 			l.Count("tamper_rejected_too_short", short)
+		}
+		c.End()
+	}
+}
+
+// ---------------------------------------------------------------------------------------
+// Retry integrity tags computed concurrently (the implementation shares a scratch buffer between
+// all connections of the process): every goroutine must still get the RFC value for its own input.
+// The job is also run under the race detector.
+
+func TestVerifC05RetryConcurrent(t *testing.T) {
+	l := evlog.Open("C05")
+	defer l.Close()
+	rounds := l.Pick(6, 60)
+	for bi := 0; bi < rounds; bi++ {
+		if !l.Mine(bi) {
+			continue
+		}
+		id := fmt.Sprintf("C05/retry-concurrent/%03d", bi)
+		c := l.Begin(id, map[string]any{"batch": bi})
+		if c == nil {
+			continue
+		}
+		const workers = 8
+		type miss struct{ retry, odcid, got, want string }
+		var mu sync.Mutex
+		var first *miss
+		var wg sync.WaitGroup
+		for g := 0; g < workers; g++ {
+			wg.Add(1)
+			rng := l.Rand(fmt.Sprintf("%s/g%d", id, g))
+			go func() {
+				defer wg.Done()
+				for k := 0; k < 1500; k++ {
+					v := protocol.Version1
+					if (k+g)&1 == 1 {
+						v = protocol.Version2
+					}
+					odcid := c05EdgeDCIDs(rng, (k/2)%21, k/42)
+					retry := c05Bytes(rng, 20+rng.IntN(400))
+					got := GetRetryIntegrityTag(retry, protocol.ParseConnectionID(odcid), v)
+					want := wiretap.RetryTag(uint32(v), retry, odcid)
+					if !bytes.Equal(got[:], want) {
+						mu.Lock()
+						if first == nil {
+							first = &miss{fmt.Sprintf("%x", retry), fmt.Sprintf("%x", odcid), fmt.Sprintf("%x", got[:]), fmt.Sprintf("%x", want)}
+						}
+						mu.Unlock()
+						return
+					}
+				}
+			}()
+		}
+		wg.Wait()
+		c.Eval(fmt.Sprintf("retry-concurrent/%d", bi))
+		l.Count("retry_tags_concurrent", workers*1500)
+		if first != nil {
+			c.Violation("C05|retry|integrity-tag-differs|concurrent", fmt.Sprintf("with %d goroutines computing tags at once: retry=%s odcid=%s: repo %s, RFC reference %s", workers, first.retry, first.odcid, first.got, first.want), nil)
 		}
 		c.End()
 	}
